@@ -95,9 +95,9 @@ type loaded struct {
 
 // readHarnessFiles returns overlay (abs path -> content) for all *.go under dirs
 // having a //verif:dest directive, and the replace directives per destination package dir.
-func readHarnessFiles(dirs []string) (map[string][]byte, map[string][][2]string, error) {
+func readHarnessFiles(dirs []string) (map[string][]byte, map[string][][3]string, error) {
 	overlay := map[string][]byte{}
-	repl := map[string][][2]string{}
+	repl := map[string][][3]string{}
 	for _, d := range dirs {
 		files, _ := filepath.Glob(filepath.Join(d, "*.go"))
 		sort.Strings(files)
@@ -107,16 +107,25 @@ func readHarnessFiles(dirs []string) (map[string][]byte, map[string][][2]string,
 				return nil, nil, err
 			}
 			dest := ""
-			var reps [][2]string
+			var reps [][3]string
 			for _, line := range strings.Split(string(b), "\n") {
 				line = strings.TrimSpace(line)
 				if strings.HasPrefix(line, "//verif:dest ") {
 					dest = strings.TrimSpace(strings.TrimPrefix(line, "//verif:dest "))
 				}
-				if strings.HasPrefix(line, "//verif:replace ") {
-					kv := strings.SplitN(strings.TrimPrefix(line, "//verif:replace "), "=", 2)
+				if strings.HasPrefix(line, "//verif:replace") {
+					// "//verif:replace X = Y" (all harnesses) or "//verif:replace@Name X = Y" (harnesses whose name starts with Name)
+					rest := strings.TrimPrefix(line, "//verif:replace")
+					scope := ""
+					if strings.HasPrefix(rest, "@") {
+						sp := strings.SplitN(rest[1:], " ", 2)
+						if len(sp) == 2 {
+							scope, rest = sp[0], sp[1]
+						}
+					}
+					kv := strings.SplitN(rest, "=", 2)
 					if len(kv) == 2 {
-						reps = append(reps, [2]string{strings.TrimSpace(kv[0]), strings.TrimSpace(kv[1])})
+						reps = append(reps, [3]string{strings.TrimSpace(kv[0]), strings.TrimSpace(kv[1]), scope})
 					}
 				}
 			}
@@ -272,7 +281,12 @@ func cmdCheck(argv []string) int {
 	loadTime := time.Since(tl)
 
 	// resolve replacements (global across harness packages)
-	replace := map[string]*ssa.Function{}
+	type scopedRepl struct {
+		target string
+		fn     *ssa.Function
+		scope  string
+	}
+	var allRepl []scopedRepl
 	for dir, reps := range repl {
 		pp := "github.com/mimecast/dtail/" + dir
 		sp := pkgs[pp]
@@ -285,8 +299,22 @@ func cmdCheck(argv []string) int {
 				fmt.Printf("HARNESS-STALE replacement function %s not found in %s\n", r[1], pp)
 				return 3
 			}
-			replace[r[0]] = f
+			allRepl = append(allRepl, scopedRepl{r[0], f, r[2]})
 		}
+	}
+	replaceFor := func(harness string) map[string]*ssa.Function {
+		m := map[string]*ssa.Function{}
+		for _, r := range allRepl {
+			if r.scope == "" {
+				m[r.target] = r.fn
+			}
+		}
+		for _, r := range allRepl {
+			if r.scope != "" && strings.HasPrefix(harness, r.scope) {
+				m[r.target] = r.fn
+			}
+		}
+		return m
 	}
 
 	type job struct {
@@ -376,7 +404,7 @@ func cmdCheck(argv []string) int {
 			if *maxWall > 0 {
 				cfg.MaxWall = *maxWall
 			}
-			ex := &interp.Explorer{Sem: globalSem, Cfg: cfg, Prog: prog, Entry: entry, Args: j.args, Replace: replace, KnownIDs: known, InitPkgs: initPolicy}
+			ex := &interp.Explorer{Sem: globalSem, Cfg: cfg, Prog: prog, Entry: entry, Args: j.args, Replace: replaceFor(j.h.Name), KnownIDs: known, InitPkgs: initPolicy}
 			ex.Run()
 			results[ji] = &instanceResult{h: j.h, args: j.args, ex: ex}
 			if *verbose {
